@@ -202,16 +202,18 @@ def sleep_action_tables(rep: Report, rid: str, prog: Program) -> None:
                     if e.args != [DEC_CTX, DEC_SLEEP]:
                         problem = f"sleep handler receives {[show(a) for a in e.args]}"
                 if e.is_repo(":_call_before_sleep") or e.is_repo(":_call_before_sleep_async"):
-                    if e.args != [("param", "before_sleep"), DEC_CTX, DEC_SLEEP]:
-                        problem = f"before_sleep wrapper receives {[show(a) for a in e.args]}"
+                    # by parameter name (positional arguments are bound to the callee's names by the engine)
+                    if sorted(e.kwargs.values(), key=repr) != sorted([("param", "before_sleep"), DEC_CTX, DEC_SLEEP], key=repr) or e.kwargs.get("sleep_s", DEC_SLEEP) != DEC_SLEEP or e.kwargs.get("ctx", DEC_CTX) != DEC_CTX:
+                        problem = f"before_sleep wrapper receives {[(k, show(a)) for k, a in e.kwargs.items()]}"
                 if e.callback() == "sleeper" or e.is_repo(":_call_async_sleeper"):
                     a = e.args[-1] if e.args else None
                     if a != DEC_SLEEP:
                         problem = f"sleeper receives {show(a)}"
                 if e.is_repo(":_handle_sleep_decision"):
                     hc = [x for x in p.calls() if x.callback() == "sleep_handler"]
-                    if not hc or e.args[0] != hc[0].result or e.args[1:] != [("param", "state"), ("param", "attempt"), ("param", "decision")]:
-                        problem = f"_handle_sleep_decision receives {[show(a) for a in e.args]}"
+                    want_kw = {"action": hc[0].result if hc else None, "state": ("param", "state"), "attempt": ("param", "attempt"), "decision": ("param", "decision")}
+                    if not hc or dict(e.kwargs) != want_kw:
+                        problem = f"_handle_sleep_decision receives {[(k, show(a)) for k, a in e.kwargs.items()]}"
             if problem:
                 rep.fail(rid, f"{fn}|{problem[:40]}", f"{fn}: {problem}", where=fi.where(), function=fi.qual, path=p.describe())
             else:
@@ -287,7 +289,10 @@ def selectors_and_rest(rep: Report, prog: Program) -> None:
                         if e.is_repo(f":{fn}"):
                             n_sites += 1
                             rep.instance("R16.4", f"{mf.qual}|{fn}")
-                            if e.args == [attr(("param", "self"), attrname), ("param", param)]:
+                            cal = next((t.func for t in e.targets if t.func is not None), None)
+                            pn = cal.positional_params() if cal is not None else []
+                            # by the callee's parameter names: first = policy-level value, second = call-level value
+                            if len(pn) == 2 and dict(e.kwargs) == {pn[0]: attr(("param", "self"), attrname), pn[1]: ("param", param)}:
                                 rep.ok("R16.4")
                             else:
                                 rep.fail("R16.4", f"{mf.qual.split(':')[1]}|{fn}|args", f"{mf.qual}: {fn}({', '.join(show(a) for a in e.args)}): expected (self.{attrname}, {param})", where=mf.where(), function=mf.qual)
